@@ -1,6 +1,8 @@
 """C01 helper, part 3: the atom families and their enumeration (see lib_c01.py)."""
 from vf import lib_c01b
-from vf.lib_c01 import KBY, KINDS, INTERESTING, kinds_for, oexpr, tr_code
+import itertools
+
+from vf.lib_c01 import KBY, KINDS, INTERESTING, SO_DOM, kinds_for, oexpr, tr_code
 from vf.lib_c01b import OCT, seq_steps
 
 CK1 = ["free", "ns", "method", "cmethod", "static", "virtual", "ctor"]
@@ -311,6 +313,24 @@ class Lib(lib_c01b.Lib):
                 self.add_func("DF/%s/%s/v%d/derived" % (ck, shape, vi), ck, dhost, fname, pk, defaults=defaults,
                               tag="/v%d" % vi, host=self.hosts[dhost], tn=False, family="DF", spec=self.promisc)
 
+    def atom_SO(self, at):
+        """overload set over string-ish kinds and the alternatives a raw C string converts to:
+        at = ("SO", ck, "k1+k2[+k3]"); every overload has one parameter, named after its variant so
+        that the database entry (parameter name) tells the overloads of equal category apart"""
+        ck, combo = at[1], at[2].split("+")
+        cid = "_".join(combo)
+        if ck == "free":
+            scope, host, fname = "", None, "fSO_" + cid
+        else:
+            scope = "HSO%s_%s" % ("k" if ck == "ctor" else "m", cid)
+            host = self.host(scope)
+            fname = scope if ck == "ctor" else "so"
+        for vi, k in enumerate(combo):
+            self.add_func("SO/%s/%s/%s" % (ck, at[2], k), ck, scope, fname, [k], tag="/v%d" % vi, host=host,
+                          tn=False, family="SO", pfx="p%s_" % k, doms=SO_DOM,
+                          spec=(k != "cvp"))   # no wrapper is exported for a const void * parameter;
+                                               # the overload still takes part in overload resolution
+
     def atom_CM(self, at):
         """const / non-const overload pair of one method name"""
         h = self.host("HCM")
@@ -483,6 +503,10 @@ def enumerate_atoms(tier, string):
     for s in ("multiple", "virtual"):     # single inheritance: no cast wrapper is exported (same address)
         atoms.append(("CAST", s))
     atoms.append(("CM",))
+    if string:
+        for ck in ("method", "free", "ctor"):
+            for combo in so_combos():
+                atoms.append(("SO", ck, "+".join(combo)))
     atoms.append(("NT", "nested"))
     atoms.append(("NT", "template"))
     dcks = DF_CKS if tier == "thorough" else DF_CKS[:4]
@@ -497,6 +521,19 @@ def enumerate_atoms(tier, string):
             for b in k2:
                 atoms.append(("P2", ck, a, b))
     return atoms
+
+
+def so_combos():
+    """pairs and triples over {const std::string&, std::string, const char*, bool, int, const void*} holding
+    at least one string-ish kind; std::string and const std::string& together are ambiguous in C++ itself"""
+    ks = ["strr", "str", "cs", "b", "i", "cvp"]
+    out = []
+    for n in (2, 3):
+        for c in itertools.combinations(ks, n):
+            if not set(c) & {"strr", "str", "cs"} or {"strr", "str"} <= set(c):
+                continue
+            out.append(c)
+    return out
 
 
 def atom_key(at):
